@@ -5,6 +5,7 @@ package main
 import (
 	"fmt"
 	"go/types"
+	"regexp"
 	"strconv"
 	"strings"
 
@@ -184,7 +185,8 @@ func (c *FnCtx) evalBinary(env *Env, x *EBinary) Val {
 	case "==", "!=":
 		var e string
 		if srt == sFlt {
-			e = "(feq " + a.E + " " + b.E + ")"
+			// in specifications == on floats is identity of values (NaN == NaN); IEEE comparison is feq(x, y)
+			e = Eq(a.E, b.E)
 		} else if _, isSl := a.T.Underlying().(*types.Slice); isSl && (b.E == "nil-slice" || a.E == "nil-slice") {
 			o := a.E
 			if o == "nil-slice" {
@@ -261,10 +263,40 @@ func (c *FnCtx) evalQuant(env *Env, x *EQuant) Val {
 		}
 	}
 	body := c.evalBool(&ne, x.Body)
+	// Index variables are re-expressed as absolute positions in the backing array, so that the quantifier's
+	// trigger is (select (select E arr) a) with a plain variable a: E-matching then finds instances whatever
+	// the arithmetic shape of the ground index (sub-slices, i+j, ...).
+	for k, qv := range x.Vars {
+		if qv.Type != "int" {
+			continue
+		}
+		v := ne.bound[qv.Name].E
+		body, decls[k] = absoluteIndex(body, v, decls[k])
+	}
 	if x.Forall {
 		return Val{T: tBool, E: "(forall (" + strings.Join(decls, " ") + ") " + Implies(And(guards...), body) + ")"}
 	}
 	return Val{T: tBool, E: "(exists (" + strings.Join(decls, " ") + ") " + And(append(guards, body)...) + ")"}
+}
+
+var sliceIdxRe = regexp.MustCompile(`\(\+ \(s-off ((?:\|[^|]*\|)|[a-z\-]+)\) (\|q\$[^|]*\|)\)`)
+
+func absoluteIndex(body, v, decl string) (string, string) {
+	var base string
+	for _, m := range sliceIdxRe.FindAllStringSubmatch(body, -1) {
+		if m[2] == v {
+			base = m[1]
+			break
+		}
+	}
+	if base == "" {
+		return body, decl
+	}
+	a := strings.TrimSuffix(v, "|") + "@abs|"
+	direct := "(+ (s-off " + base + ") " + v + ")"
+	body = strings.ReplaceAll(body, direct, a)
+	body = strings.ReplaceAll(body, v, "(- "+a+" (s-off "+base+"))")
+	return body, "(" + a + " Int)"
 }
 
 func (c *FnCtx) lookup(env *Env, name string) Val {
@@ -375,7 +407,7 @@ func (c *FnCtx) loopCount(env *Env) Val {
 		for _, ins := range b.Instrs {
 			if nx, ok := ins.(*ssa.Next); ok {
 				if it, ok := env.fr.vals[nx.Iter]; ok {
-					if rs := c.eng.ranges[it.E]; rs != nil {
+					if rs := c.ranges[it.E]; rs != nil {
 						return env.st.locals[rs.pos]
 					}
 				}
@@ -628,6 +660,9 @@ func (c *FnCtx) evalCall(env *Env, x *ECall) Val {
 			op = ">"
 		}
 		return Val{T: a.T, E: "(ite (" + op + " " + a.E + " " + b.E + ") " + a.E + " " + b.E + ")"}
+	case "feq":
+		a, b := c.unify(arg(0), arg(1))
+		return Val{T: tBool, E: "(feq " + a.E + " " + b.E + ")"}
 	case "isNaN":
 		return Val{T: tBool, E: "((_ is nan) " + arg(0).E + ")"}
 	case "isInf":
@@ -699,13 +734,28 @@ func (c *FnCtx) evalCall(env *Env, x *ECall) Val {
 		}
 		return c.eval(&ne, pf.Body)
 	}
-	// uninterpreted spec functions declared via axioms: name(args...) over ints
-	if uf, ok := c.eng.uninterp[x.Fun]; ok {
-		var as []string
+	// uninterpreted spec functions constrained by axioms
+	if sf, ok := c.eng.specs.SpecFuncs[x.Fun]; ok {
+		var as, sorts []string
 		for i := range x.Args {
-			as = append(as, arg(i).E)
+			a := arg(i)
+			pt := c.eng.resolveType(sf.Pkg, sf.Params[i].Type)
+			if pt == nil {
+				panic(specError("unknown type " + sf.Params[i].Type))
+			}
+			if a.E == "NIL" {
+				a.E = c.ty.Zero(pt)
+			}
+			as = append(as, a.E)
+			sorts = append(sorts, c.ty.SortOf(pt))
 		}
-		return Val{T: uf.res, E: App(q("spec$"+x.Fun), as...)}
+		rt := c.eng.resolveType(sf.Pkg, sf.Result)
+		if rt == nil {
+			panic(specError("unknown type " + sf.Result))
+		}
+		f := q("spec$" + x.Fun)
+		c.sc.Decl("specfn:"+x.Fun, fmt.Sprintf("(declare-fun %s (%s) %s)", f, strings.Join(sorts, " "), c.ty.SortOf(rt)))
+		return Val{T: rt, E: App(f, as...)}
 	}
 	panic(specError("unknown function " + x.Fun))
 }
